@@ -110,10 +110,10 @@ Proof.
     unfold uses_tr in TR. destruct s; [discriminate|]. destruct (perm b) as [[[k1 k2] k3]|] eqn:Pb; [|discriminate].
     unfold hdr_specs, uses_tr in *. rewrite Pb in *. unfold hdr_vals in *. rewrite Pb in *. rewrite E1r in *.
     cbn [app length firstn] in Hok.
-    destruct (written_line_reads _ [] [g0; g1; g2; g3; g4; g5; g6] [] _ (spaces (80 - length (hdr_vals TOUGHREACT u b))) Hok
+    destruct (written_line_reads _ [] [g0; g1; g2; g3; g4; g5; g6] [] _ (spaces (pad_len - length (hdr_vals TOUGHREACT u b))) Hok
                 (same_cols_refl _) eq_refl (forallb_spaces _)) as [line [Em Pm]].
     clear Pm.
-    destruct (written_line_reads _ [] [g0; g1; g2; g3; g4; g5; g6] [] _ (spaces (80 - length (line ++ [newline]))) Hok
+    destruct (written_line_reads _ [] [g0; g1; g2; g3; g4; g5; g6] [] _ (spaces (pad_len - length (line ++ [newline]))) Hok
                 (same_cols_refl _) eq_refl (forallb_spaces _)) as [line' [Em' Pm]].
     rewrite app_nil_r in Em, Em'. cbn [app] in Em, Em'. rewrite Em in Em'. inversion Em' as [EL]. apply app_inv_tail in EL. subst line'.
     exists (line ++ [newline]). split; [exact Em|].
@@ -132,7 +132,7 @@ Proof.
     rewrite HS, HV in *. cbn [length firstn] in Hok.
     assert (NS : no_str [g4; g5; g6] = true) by (cbn; rewrite U4, U5, U6; reflexivity).
     destruct (written_line_reads _ [] [g0; g1; g2; g3] [g4; g5; g6] _ [] Hok SC NS eq_refl) as [line [Em _]].
-    destruct (written_line_reads _ [] [g0; g1; g2; g3] [g4; g5; g6] _ (spaces (80 - length (line ++ [newline]))) Hok SC NS (forallb_spaces _))
+    destruct (written_line_reads _ [] [g0; g1; g2; g3] [g4; g5; g6] _ (spaces (pad_len - length (line ++ [newline]))) Hok SC NS (forallb_spaces _))
       as [line' [Em' Pm]].
     rewrite app_nil_r in Em, Em'. rewrite Em in Em'. inversion Em' as [EL]. apply app_inv_tail in EL. subst line'.
     exists (line ++ [newline]). split; [exact Em|].
